@@ -282,7 +282,7 @@ package raft
 //@ ufun st_snapterm(s Storage) uint64
 //@ pred opaque wf_storage(s Storage) := !isnil(s) && st_first(s) >= 1 && st_last(s) + 1 >= st_first(s) && st_last(s) < 4611686018427387904
 //@     && st_snapindex(s) + 1 >= st_first(s)
-//@     && (forall i uint64 :: st_first(s) <= i && i <= st_last(s) ==> allocated(st_ent(s, i)) && eindex(st_ent(s, i)) == i && eterm(st_ent(s, i)) == st_term(s, i))
+//@     && (forall i uint64 :: st_first(s) <= i && i <= st_last(s) ==> st_ent(s, i) != nil && eindex(st_ent(s, i)) == i && eterm(st_ent(s, i)) == st_term(s, i))
 //@     && (forall i uint64, j uint64 :: st_first(s) - 1 <= i && i <= j && j <= st_last(s) ==> st_term(s, i) <= st_term(s, j))
 
 //@ func raft.Storage.FirstIndex
@@ -651,7 +651,7 @@ package raft
 //@     && msgs_nonnil(r.msgs) && msgs_nonnil(r.msgsAfterAppend) && r.Term < 9223372036854775808
 //@     && (r.msgs.arr != r.msgsAfterAppend.arr || r.msgs.arr == 0) && (r.msgs.arr != r.pendingReadIndexMessages.arr || r.msgs.arr == 0)
 //@     && (r.msgsAfterAppend.arr != r.pendingReadIndexMessages.arr || r.msgsAfterAppend.arr == 0)
-//@     && (r.state == StateLeader <==> r.lead == r.id) && (r.state == StatePreCandidate ==> r.preVote)
+//@     && (r.state == StateLeader <==> r.lead == r.id) && (r.state == StatePreCandidate ==> r.preVote) && r.leadTransferee != r.id
 
 //@ -- C07: the hard state (Term, Vote, commit) moves forward only: two-state invariant proved for every function that can write it
 //@ pred hs_monotone(r *raft) := r.Term >= old(r.Term) && (r.Term == old(r.Term) ==> (r.Vote == old(r.Vote) || old(r.Vote) == 0))
@@ -661,6 +661,7 @@ package raft
 //@ pred isVoteType(t pb.MessageType) := t == pb.MsgVote || t == pb.MsgVoteResp || t == pb.MsgPreVote || t == pb.MsgPreVoteResp
 
 //@ func raft.raft.send [C05 C07 C14]
+//@   frame elems *raftpb.Message: r.msgs, r.msgsAfterAppend
 //@   requires #wf wf_raft(r) && m != nil
 //@   requires #term-set [C14] isVoteType(m.GetType()) ==> m.GetTerm() != 0
 //@   requires #term-unset [C14] !isVoteType(m.GetType()) ==> m.GetTerm() == 0
@@ -675,6 +676,7 @@ package raft
 //@        && (forall i int, q int :: 0 <= i && i < old(len(r.msgsAfterAppend)) && q == old(r.msgsAfterAppend.off) + i ==> elem(r.msgsAfterAppend, r.msgsAfterAppend.off + i) == old(elem(r.msgsAfterAppend, q)))
 //@   ensures #term-stamp [C07] m.GetTerm() == (isVoteType(old(m.GetType())) || old(m.GetType()) == pb.MsgProp || old(m.GetType()) == pb.MsgReadIndex ? old(m.GetTerm()) : r.Term)
 //@   ensures #from m.GetFrom() == (old(m.GetFrom()) == 0 ? r.id : old(m.GetFrom())) && m.GetType() == old(m.GetType()) && m.GetTo() == old(m.GetTo())
+//@   ensures #rest raft_kept_but_msgs(r)
 //@   ensures #wf wf_raft(r) && hs_monotone(r)
 
 //@ -- ------------------------------------------------------------------------------------------
@@ -706,6 +708,8 @@ package raft
 //@        && fresh(ro.unconfirmedReads[old(len(ro.unconfirmedReads))])
 //@   ensures #kept [C11] (forall i int, q int :: 0 <= i && i < old(len(ro.unconfirmedReads)) && q == old(ro.unconfirmedReads.off) + i ==> elem(ro.unconfirmedReads, ro.unconfirmedReads.off + i) == old(elem(ro.unconfirmedReads, q)))
 //@        && ro.confirmedReads == old(ro.confirmedReads) && ro.acks == old(ro.acks) && ro.option == old(ro.option)
+//@   ensures #kept-reqs [C11] forall p int :: {elem(ro.unconfirmedReads, p)} ro.unconfirmedReads.off <= p && p < ro.unconfirmedReads.off + old(len(ro.unconfirmedReads)) ==>
+//@        elem(ro.unconfirmedReads, p) == oldelem(ro.unconfirmedReads, old(ro.unconfirmedReads.off) + (p - ro.unconfirmedReads.off))
 //@   ensures #wf wf_readOnly(ro)
 
 //@ func raft.readOnly.heartbeatCtx [C11]
@@ -768,6 +772,7 @@ package raft
 
 //@ pred raft_kept_but_msgs(r *raft) := r.Term == old(r.Term) && r.Vote == old(r.Vote) && r.state == old(r.state) && r.lead == old(r.lead) && r.id == old(r.id)
 //@     && r.step == old(r.step) && r.tick == old(r.tick) && r.electionElapsed == old(r.electionElapsed) && r.heartbeatElapsed == old(r.heartbeatElapsed)
+//@     && (r.msgs.arr == old(r.msgs.arr) || fresh(r.msgs.arr)) && (r.msgsAfterAppend.arr == old(r.msgsAfterAppend.arr) || fresh(r.msgsAfterAppend.arr))
 //@     && r.raftLog == old(r.raftLog) && r.readOnly == old(r.readOnly) && r.leadTransferee == old(r.leadTransferee) && r.pendingConfIndex == old(r.pendingConfIndex)
 //@     && r.uncommittedSize == old(r.uncommittedSize) && r.electionElapsed == old(r.electionElapsed) && r.heartbeatElapsed == old(r.heartbeatElapsed)
 //@     && r.isLearner == old(r.isLearner) && r.randomizedElectionTimeout == old(r.randomizedElectionTimeout)
@@ -853,6 +858,7 @@ package raft
 //@   requires wf_raft(r)
 //@   reveal wf_trk
 //@   frame raft.raftLog: r.raftLog
+//@   ensures #reads-kept [C11] old(reads_wf(r)) ==> reads_wf(r)
 //@   ensures #quorum-own-term [C06 C04] result ==> jointCommittedByMatch(&r.trk, r.raftLog.committed) && log_has(r.raftLog, r.raftLog.committed)
 //@        && log_term(r.raftLog, r.raftLog.committed) == r.Term && r.raftLog.committed > old(r.raftLog.committed) && r.Term != 0
 //@   ensures #unchanged [C06] !result ==> r.raftLog.committed == old(r.raftLog.committed)
@@ -860,9 +866,12 @@ package raft
 //@   ensures #wf wf_raft(r) && hs_monotone(r)
 
 //@ func raft.raft.sendHeartbeat [C06 C14]
+//@   frame raftpb.Message:
+//@   frame elems *raftpb.Message: r.msgs, r.msgsAfterAppend
 //@   requires wf_raft(r) && r.state == StateLeader
 //@   requires #peer [C14] has(r.trk.Progress, to) && to != r.id
 //@   reveal wf_trk
+//@   ensures #reads-kept [C11] old(reads_wf(r)) ==> reads_wf(r)
 //@   ensures #commit-clamp [C06] len(r.msgs) == old(len(r.msgs)) + 1 && r.msgs[old(len(r.msgs))].GetType() == pb.MsgHeartbeat && r.msgs[old(len(r.msgs))].GetTo() == to
 //@        && r.msgs[old(len(r.msgs))].GetCommit() == min(old(r.trk.Progress[to].Match), r.raftLog.committed) && r.msgs[old(len(r.msgs))].GetTerm() == r.Term
 //@   ensures #deferred-untouched [C05] r.msgsAfterAppend == old(r.msgsAfterAppend)
@@ -880,26 +889,34 @@ package raft
 
 //@ -- leader-side relation between progress records and the log: nothing is tracked beyond the leader's own log
 //@ pred progress_in_log(r *raft, pr *tracker.Progress) := pr.Match <= log_last(r.raftLog) && pr.Next <= log_last(r.raftLog) + 1 && pr.Next >= 1
+//@     && pr.PendingSnapshot <= log_last(r.raftLog)
 //@ spec lastMsg(r *raft) *pb.Message := r.msgs[len(r.msgs) - 1]
 
 //@ func raft.raft.maybeSendSnapshot [C09 C16 C14]
+//@   frame raftpb.Message:
+//@   frame elems *raftpb.Message: r.msgs, r.msgsAfterAppend
 //@   requires wf_raft(r) && r.state == StateLeader
 //@   requires #peer has(r.trk.Progress, to) && r.trk.Progress[to] == pr && to != r.id
 //@   requires #behind-compaction [C14] pr.Match + 1 < log_first(r.raftLog)
 //@   reveal wf_trk, wf_raftLog
 //@   frame tracker.Progress: pr
 //@   frame tracker.Inflights: pr.Inflights
+//@   ensures #reads-kept [C11] old(reads_wf(r)) ==> reads_wf(r)
 //@   ensures #inactive-noop [C09] !old(pr.RecentActive) ==> !result && r.msgs == old(r.msgs) && pr.State == old(pr.State) && pr.Next == old(pr.Next) && pr.PendingSnapshot == old(pr.PendingSnapshot)
 //@   ensures #sent [C09 C16] result ==> pr.State == tracker.StateSnapshot && len(r.msgs) == old(len(r.msgs)) + 1 && lastMsg(r).GetType() == pb.MsgSnap && lastMsg(r).GetTo() == to
 //@        && lastMsg(r).Snapshot != nil && pr.PendingSnapshot == snapIndex(lastMsg(r).Snapshot) && pr.Next == pr.PendingSnapshot + 1
 //@        && snapIndex(lastMsg(r).Snapshot) <= r.raftLog.committed && lastMsg(r).GetTerm() == r.Term
-//@   ensures #not-sent !result ==> r.msgs == old(r.msgs) && pr.State == old(pr.State) && pr.Next == old(pr.Next)
+//@   ensures #not-sent !result ==> r.msgs == old(r.msgs) && pr.State == old(pr.State) && pr.Next == old(pr.Next) && pr.PendingSnapshot == old(pr.PendingSnapshot)
+//@   ensures #pending-in-log [C09] result ==> pr.PendingSnapshot <= log_last(r.raftLog)
+//@   ensures #log-kept log_last(r.raftLog) == old(log_last(r.raftLog))
 //@   ensures #match-kept [C06] pr.Match == old(pr.Match)
 //@   ensures #deferred-untouched [C05] r.msgsAfterAppend == old(r.msgsAfterAppend)
 //@   ensures #rest raft_kept_but_msgs(r) && r.raftLog.committed == old(r.raftLog.committed)
 //@   ensures #wf wf_raft(r) && hs_monotone(r)
 
 //@ func raft.raft.maybeSendAppend [C16 C06 C03 C14]
+//@   frame raftpb.Message:
+//@   frame elems *raftpb.Message: r.msgs, r.msgsAfterAppend
 //@   requires wf_raft(r) && r.state == StateLeader
 //@   after raft.raft.send assert #sent-app lastMsg(r).GetType() == pb.MsgApp && lastMsg(r).GetTo() == to && lastMsg(r).GetTerm() == r.Term && len(r.msgs) == old(len(r.msgs)) + 1
 //@   after raft.raft.send assert #sent-idx lastMsg(r).GetIndex() == old(r.trk.Progress[to].Next) - 1
@@ -915,6 +932,7 @@ package raft
 //@   reveal wf_trk, wf_raftLog, wf_unstable, wf_storage
 //@   frame tracker.Progress: r.trk.Progress[to]
 //@   frame tracker.Inflights: r.trk.Progress[to].Inflights
+//@   ensures #reads-kept [C11] old(reads_wf(r)) ==> reads_wf(r)
 //@   ensures #paused-noop [C16] old(r.trk.Progress[to].State == tracker.StateSnapshot || r.trk.Progress[to].MsgAppFlowPaused) ==> !result && r.msgs == old(r.msgs)
 //@        && r.trk.Progress[to].Next == old(r.trk.Progress[to].Next) && r.trk.Progress[to].State == old(r.trk.Progress[to].State)
 //@   ensures #one-message [C16] len(r.msgs) == old(len(r.msgs)) + (result ? 1 : 0) && (!result ==> r.msgs == old(r.msgs))
@@ -934,11 +952,14 @@ package raft
 //@   ensures #wf wf_raft(r) && hs_monotone(r)
 
 //@ func raft.raft.sendAppend [C16]
+//@   frame raftpb.Message:
+//@   frame elems *raftpb.Message: r.msgs, r.msgsAfterAppend
 //@   requires wf_raft(r) && r.state == StateLeader
 //@   requires #peer [C14] has(r.trk.Progress, to) && to != r.id && progress_in_log(r, r.trk.Progress[to])
 //@   reveal wf_trk
 //@   frame tracker.Progress: r.trk.Progress[to]
 //@   frame tracker.Inflights: r.trk.Progress[to].Inflights
+//@   ensures #reads-kept [C11] old(reads_wf(r)) ==> reads_wf(r)
 //@   ensures #next-in-log [C14] progress_in_log(r, r.trk.Progress[to]) && log_last(r.raftLog) == old(log_last(r.raftLog))
 //@   ensures #at-most-one [C16] len(r.msgs) <= old(len(r.msgs)) + 1 && len(r.msgs) >= old(len(r.msgs))
 //@   ensures #deferred-untouched [C05] r.msgsAfterAppend == old(r.msgsAfterAppend)
@@ -948,6 +969,8 @@ package raft
 
 //@ -- the entries raft itself originates: clones of the proposed entries stamped with (Term, last+1+i); payload and type untouched (C20)
 //@ func raft.raft.appendEntry [C20 C03 C05 C16]
+//@   frame elems *raftpb.Message: r.msgs, r.msgsAfterAppend
+//@   frame raftpb.Message:
 //@   requires wf_raft(r) && r.state == StateLeader
 //@   requires #ents forall p int :: es.off <= p && p < es.off + len(es) ==> elem(es, p) != nil
 //@   requires #term-not-behind-log [C03] log_term(r.raftLog, log_last(r.raftLog)) <= r.Term && r.Term >= 1
@@ -956,6 +979,7 @@ package raft
 //@   after raft.raftLog.append assert #h-last result == old(log_last(r.raftLog)) + len(es) && log_last(r.raftLog) == result
 //@   after raft.raftLog.append assert #h-terms forall i int :: old(log_last(r.raftLog)) < i && i <= log_last(r.raftLog) ==> log_term(r.raftLog, i) == r.Term
 //@   after raft.raftLog.append assert #h-prefix forall i int :: i <= old(log_last(r.raftLog)) && old(log_has(r.raftLog, i)) ==> log_has(r.raftLog, i) && log_term(r.raftLog, i) == old(log_term(r.raftLog, i))
+//@   ensures #reads-kept [C11] old(reads_wf(r)) ==> reads_wf(r)
 //@   ensures #dropped-untouched [C20 C16] !accepted ==> log_last(r.raftLog) == old(log_last(r.raftLog)) && r.msgs == old(r.msgs) && r.msgsAfterAppend == old(r.msgsAfterAppend)
 //@        && r.uncommittedSize == old(r.uncommittedSize) && r.raftLog.unstable.entries == old(r.raftLog.unstable.entries) && r.raftLog.unstable.offset == old(r.raftLog.unstable.offset)
 //@   ensures #appended [C20 C03] accepted ==> log_last(r.raftLog) == old(log_last(r.raftLog)) + len(es)
@@ -1306,13 +1330,17 @@ package raft
 //@ pred matches_kept(r *raft) := r.trk.Progress == old(r.trk.Progress) && (forall id uint64 :: has(r.trk.Progress, id) ==> r.trk.Progress[id].Match == old(r.trk.Progress[id].Match))
 
 //@ func raft.raft.bcastAppend [C16 C05 C06 C19]
+//@   frame raftpb.Message:
+//@   frame elems *raftpb.Message: r.msgs, r.msgsAfterAppend
 //@   requires wf_raft(r) && r.state == StateLeader
 //@   requires #progress-in-log [C14] wf_leader(r)
 //@   reveal trk_distinct, wf_trk
 //@   visit 1 invariant #state wf_raft(r) && raft_kept_but_msgs(r) && r.msgsAfterAppend == old(r.msgsAfterAppend) && r.raftLog.committed == old(r.raftLog.committed)
 //@        && len(r.msgs) >= old(len(r.msgs)) && log_last(r.raftLog) == old(log_last(r.raftLog))
 //@   visit 1 invariant #in-log wf_leader(r)
+//@   visit 1 invariant #outbox-frame frameexcept("E$*raftpb.Message", old(r.msgs), old(r.msgsAfterAppend)) && frameexcept("F$raftpb.Message")
 //@   visit 1 invariant #matches matches_kept(r)
+//@   ensures #reads-kept [C11] old(reads_wf(r)) ==> reads_wf(r)
 //@   ensures #deferred-untouched [C05] r.msgsAfterAppend == old(r.msgsAfterAppend) && len(r.msgs) >= old(len(r.msgs))
 //@   ensures #match-kept [C06] matches_kept(r)
 //@   ensures #rest raft_kept_but_msgs(r) && r.raftLog.committed == old(r.raftLog.committed) && log_last(r.raftLog) == old(log_last(r.raftLog))
@@ -1341,3 +1369,233 @@ package raft
 //@        && old(m.GetType()) != (old(r.state) == StatePreCandidate ? pb.MsgPreVoteResp : pb.MsgVoteResp) ==> node_unchanged(r) && result == nil
 //@   ensures #commit-monotone [C07] r.raftLog.committed >= old(r.raftLog.committed)
 //@   ensures #wf wf_raft(r) && hs_monotone(r) && typestate(r) && (r.state == StateLeader ==> wf_leader(r))
+
+//@ -- ------------------------------------------------------------------------------------------
+//@ -- raft.go: leader-side helpers
+
+//@ pred leader_kept(r *raft) := raft_kept_but_msgs(r) && r.raftLog.committed == old(r.raftLog.committed) && log_last(r.raftLog) == old(log_last(r.raftLog)) && matches_kept(r)
+
+//@ func raft.raft.sendTimeoutNow [C17 C05]
+//@   frame raftpb.Message:
+//@   frame elems *raftpb.Message: r.msgs, r.msgsAfterAppend
+//@   requires wf_raft(r)
+//@   requires #not-self [C14] to != r.id
+//@   ensures #reads-kept [C11] old(reads_wf(r)) ==> reads_wf(r)
+//@   ensures #one-message [C17] len(r.msgs) == old(len(r.msgs)) + 1 && lastMsg(r).GetType() == pb.MsgTimeoutNow && lastMsg(r).GetTo() == to && r.msgsAfterAppend == old(r.msgsAfterAppend)
+//@   ensures #rest leader_kept(r)
+//@   ensures #wf wf_raft(r) && hs_monotone(r)
+
+//@ func raft.raft.bcastHeartbeatWithCtx [C06 C05 C11 C19]
+//@   frame raftpb.Message:
+//@   frame elems *raftpb.Message: r.msgs, r.msgsAfterAppend
+//@   requires wf_raft(r) && r.state == StateLeader
+//@   reveal trk_distinct, wf_trk
+//@   visit 1 invariant #state wf_raft(r) && raft_kept_but_msgs(r) && r.msgsAfterAppend == old(r.msgsAfterAppend) && r.raftLog.committed == old(r.raftLog.committed)
+//@        && len(r.msgs) >= old(len(r.msgs)) && log_last(r.raftLog) == old(log_last(r.raftLog)) && r.readOnly == old(r.readOnly) && r.readStates == old(r.readStates)
+//@   visit 1 invariant #matches r.trk.Progress == old(r.trk.Progress) && (forall id uint64 :: has(r.trk.Progress, id) ==> r.trk.Progress[id].Match == old(r.trk.Progress[id].Match)
+//@        && r.trk.Progress[id].Next == old(r.trk.Progress[id].Next))
+//@   visit 1 invariant #outbox-frame frameexcept("E$*raftpb.Message", old(r.msgs), old(r.msgsAfterAppend)) && frameexcept("F$raftpb.Message")
+//@   ensures #reads-kept [C11] old(reads_wf(r)) ==> reads_wf(r)
+//@   ensures #deferred-untouched [C05] r.msgsAfterAppend == old(r.msgsAfterAppend) && len(r.msgs) >= old(len(r.msgs))
+//@   ensures #cursors-kept [C06] r.trk.Progress == old(r.trk.Progress) && (forall id uint64 :: has(r.trk.Progress, id) ==> r.trk.Progress[id].Match == old(r.trk.Progress[id].Match)
+//@        && r.trk.Progress[id].Next == old(r.trk.Progress[id].Next))
+//@   ensures #rest raft_kept_but_msgs(r) && r.raftLog.committed == old(r.raftLog.committed) && log_last(r.raftLog) == old(log_last(r.raftLog)) && r.readOnly == old(r.readOnly) && r.readStates == old(r.readStates)
+//@   ensures #wf wf_raft(r) && hs_monotone(r)
+
+//@ func raft.raft.bcastHeartbeat [C06 C05 C11]
+//@   frame raftpb.Message:
+//@   frame elems *raftpb.Message: r.msgs, r.msgsAfterAppend
+//@   requires wf_raft(r) && r.state == StateLeader
+//@   ensures #reads-kept [C11] old(reads_wf(r)) ==> reads_wf(r)
+//@   ensures #deferred-untouched [C05] r.msgsAfterAppend == old(r.msgsAfterAppend) && len(r.msgs) >= old(len(r.msgs))
+//@   ensures #cursors-kept [C06] r.trk.Progress == old(r.trk.Progress) && (forall id uint64 :: has(r.trk.Progress, id) ==> r.trk.Progress[id].Match == old(r.trk.Progress[id].Match)
+//@        && r.trk.Progress[id].Next == old(r.trk.Progress[id].Next))
+//@   ensures #rest raft_kept_but_msgs(r) && r.raftLog.committed == old(r.raftLog.committed) && log_last(r.raftLog) == old(log_last(r.raftLog)) && r.readOnly == old(r.readOnly) && r.readStates == old(r.readStates)
+//@   ensures #wf wf_raft(r) && hs_monotone(r)
+
+//@ -- a read request carries its context in Entries[0] (RawNode.ReadIndex builds it so)
+//@ pred readreq_wf(m *pb.Message) := m != nil && len(m.Entries) >= 1
+
+//@ func raft.raft.responseToReadIndexReq [C11]
+//@   frame raftpb.Message:
+//@   requires wf_raft(r) && req != nil
+//@   requires #has-entry [C14] readreq_wf(req)
+//@   frame raft.raft: r
+//@   ensures #local [C11] old(req.GetFrom() == 0 || req.GetFrom() == r.id) ==> result.GetTo() == 0 && len(r.readStates) == old(len(r.readStates)) + 1
+//@        && r.readStates[old(len(r.readStates))].Index == readIndex
+//@   ensures #remote [C11] old(req.GetFrom() != 0 && req.GetFrom() != r.id) ==> result.GetType() == pb.MsgReadIndexResp && result.GetTo() == old(req.GetFrom())
+//@        && result.GetIndex() == readIndex && result.Entries == old(req.Entries) && r.readStates == old(r.readStates)
+//@   ensures #fresh result != nil && fresh(result) && result.GetTerm() == 0
+//@   ensures #rest raft_kept_but_msgs(r) && r.msgs == old(r.msgs) && r.msgsAfterAppend == old(r.msgsAfterAppend) && r.readOnly == old(r.readOnly) && r.raftLog == old(r.raftLog)
+//@        && r.pendingReadIndexMessages == old(r.pendingReadIndexMessages)
+//@   ensures #wf wf_raft(r) && hs_monotone(r)
+
+//@ pred pending_reads_wf(r *raft) := forall p int :: r.pendingReadIndexMessages.off <= p && p < r.pendingReadIndexMessages.off + len(r.pendingReadIndexMessages)
+//@     ==> readreq_wf(elem(r.pendingReadIndexMessages, p))
+
+//@ -- ReadOnlySafe: the request is queued at the current commit index and is only answered after a heartbeat quorum (C11); the
+//@ -- leader's own acknowledgement is recorded; nothing is released here. LeaseBased: answered at once at the commit index.
+//@ func raft.sendMsgReadIndexResponse [C11 C05]
+//@   frame raftpb.Message:
+//@   frame elems *raftpb.Message: r.msgs, r.msgsAfterAppend
+//@   requires wf_raft(r) && r.state == StateLeader
+//@   requires #has-entry [C14] readreq_wf(m)
+//@   requires #a-arith r.readOnly.confirmedReads + len(r.readOnly.unconfirmedReads) + 1 < 4611686018427387904
+//@   reveal wf_readOnly
+//@   ensures #reads-wf-pending old(reads_wf(r)) ==> pending_reads_wf(r)
+//@   ensures #reads-wf old(reads_wf(r)) ==> reads_wf(r)
+//@   ensures #safe-queued [C11] old(r.readOnly.option) == ReadOnlySafe ==> len(r.readOnly.unconfirmedReads) == old(len(r.readOnly.unconfirmedReads)) + 1
+//@        && r.readOnly.unconfirmedReads[old(len(r.readOnly.unconfirmedReads))].req == m && r.readOnly.unconfirmedReads[old(len(r.readOnly.unconfirmedReads))].index == r.raftLog.committed
+//@        && r.readOnly.confirmedReads == old(r.readOnly.confirmedReads) && r.readStates == old(r.readStates)
+//@   ensures #lease-answered-at-commit [C11] old(r.readOnly.option) == ReadOnlyLeaseBased ==> (old(m.GetFrom() == 0 || m.GetFrom() == r.id) ?
+//@        len(r.readStates) == old(len(r.readStates)) + 1 && r.readStates[old(len(r.readStates))].Index == r.raftLog.committed && r.msgs == old(r.msgs)
+//@      : len(r.msgs) == old(len(r.msgs)) + 1 && lastMsg(r).GetType() == pb.MsgReadIndexResp && lastMsg(r).GetIndex() == r.raftLog.committed && lastMsg(r).GetTo() == old(m.GetFrom()))
+//@   ensures #queue-bounded [C11] r.readOnly.confirmedReads == old(r.readOnly.confirmedReads) && len(r.readOnly.unconfirmedReads) >= old(len(r.readOnly.unconfirmedReads))
+//@        && len(r.readOnly.unconfirmedReads) <= old(len(r.readOnly.unconfirmedReads)) + 1
+//@   ensures #deferred-untouched [C05] r.msgsAfterAppend == old(r.msgsAfterAppend) && len(r.msgs) >= old(len(r.msgs))
+//@   ensures #rest raft_kept_but_msgs(r) && r.raftLog.committed == old(r.raftLog.committed) && log_last(r.raftLog) == old(log_last(r.raftLog)) && r.readOnly == old(r.readOnly)
+//@        && r.pendingReadIndexMessages == old(r.pendingReadIndexMessages) && r.trk.Progress == old(r.trk.Progress)
+//@        && (forall id uint64 :: has(r.trk.Progress, id) ==> r.trk.Progress[id].Match == old(r.trk.Progress[id].Match) && r.trk.Progress[id].Next == old(r.trk.Progress[id].Next))
+//@   ensures #wf wf_raft(r) && hs_monotone(r)
+
+//@ func raft.releasePendingReadIndexMessages [C11 C05]
+//@   frame raftpb.Message:
+//@   frame elems *raftpb.Message: r.msgs, r.msgsAfterAppend
+//@   requires wf_raft(r) && r.state == StateLeader
+//@   requires #pending-wf [C14] reads_wf(r)
+//@   requires #a-arith r.readOnly.confirmedReads + len(r.readOnly.unconfirmedReads) + len(r.pendingReadIndexMessages) < 4611686018427387904
+//@   reveal wf_readOnly
+//@   ensures #only-after-own-term-commit [C11] old(len(r.pendingReadIndexMessages) > 0 && !r.committedEntryInCurrentTerm()) ==> node_unchanged(r) && r.pendingReadIndexMessages == old(r.pendingReadIndexMessages)
+//@        && r.readOnly == old(r.readOnly) && len(r.readOnly.unconfirmedReads) == old(len(r.readOnly.unconfirmedReads)) && r.readStates == old(r.readStates)
+//@   ensures #drained [C11] old(len(r.pendingReadIndexMessages) == 0 || r.committedEntryInCurrentTerm()) ==> len(r.pendingReadIndexMessages) == 0
+//@   ensures #deferred-untouched [C05] r.msgsAfterAppend == old(r.msgsAfterAppend) && len(r.msgs) >= old(len(r.msgs))
+//@   ensures #rest raft_kept_but_msgs(r) && r.raftLog.committed == old(r.raftLog.committed) && log_last(r.raftLog) == old(log_last(r.raftLog)) && r.readOnly == old(r.readOnly)
+//@        && r.trk.Progress == old(r.trk.Progress)
+//@        && (forall id uint64 :: has(r.trk.Progress, id) ==> r.trk.Progress[id].Match == old(r.trk.Progress[id].Match) && r.trk.Progress[id].Next == old(r.trk.Progress[id].Next))
+//@   ensures #wf wf_raft(r) && hs_monotone(r) && reads_wf(r)
+//@   loop 1 invariant #reads reads_wf(r)
+//@   loop 1 invariant #state 0 <= iter && iter <= len(msgs) && wf_raft(r) && r.state == StateLeader && len(r.pendingReadIndexMessages) == 0 && raft_kept_but_msgs(r)
+//@        && r.msgsAfterAppend == old(r.msgsAfterAppend) && len(r.msgs) >= old(len(r.msgs)) && r.raftLog.committed == old(r.raftLog.committed)
+//@        && log_last(r.raftLog) == old(log_last(r.raftLog)) && r.readOnly == old(r.readOnly) && r.trk.Progress == old(r.trk.Progress)
+//@        && r.readOnly.confirmedReads + len(r.readOnly.unconfirmedReads) + (len(msgs) - iter) < 4611686018427387904
+//@   loop 1 invariant #outbox-frame frameexcept("E$*raftpb.Message", old(r.msgs), old(r.msgsAfterAppend)) && frameexcept("F$raftpb.Message")
+//@   loop 1 invariant #msgs-apart (msgs.arr != r.msgs.arr && msgs.arr != r.msgsAfterAppend.arr) || len(msgs) == 0
+//@   loop 1 invariant #msgs-wf msgs == old(r.pendingReadIndexMessages) && (forall p int :: msgs.off <= p && p < msgs.off + len(msgs) ==> readreq_wf(elem(msgs, p)))
+//@   loop 1 invariant #cursors forall id uint64 :: has(r.trk.Progress, id) ==> r.trk.Progress[id].Match == old(r.trk.Progress[id].Match) && r.trk.Progress[id].Next == old(r.trk.Progress[id].Next)
+
+//@ -- library and helper functions used by the proposal path (assumed contracts, listed in the evidence)
+//@ -- E-app-conf: the data of a conf-change entry handed to Step unmarshals (ProposeConfChange marshals it itself)
+//@ ufun dataOK(arr int, off int, n int) bool
+//@ func proto.Unmarshal
+//@   trusted
+//@   modifies F$raftpb.ConfChange, F$raftpb.ConfChangeV2, alloc F$raftpb.ConfChangeSingle, alloc C$uint64, alloc C$raftpb.ConfChangeType, alloc C$raftpb.ConfChangeTransition, alloc E$uint8, alloc E$*raftpb.ConfChangeSingle
+//@   ensures dataOK(b.arr, b.off, len(b)) ==> result == nil
+//@ func raftpb.ConfChangeI.AsV2
+//@   modifies alloc F$raftpb.ConfChangeV2, alloc F$raftpb.ConfChangeSingle, alloc C$uint64, alloc C$raftpb.ConfChangeType, alloc E$*raftpb.ConfChangeSingle
+//@   ensures result != nil
+//@ func raft.DescribeConfChange
+//@   trusted
+//@   pure
+
+//@ pred isConfEntry(e *pb.Entry) := e.GetType() == pb.EntryConfChange || e.GetType() == pb.EntryConfChangeV2
+//@ pred reads_wf(r *raft) := pending_reads_wf(r) && (forall p int :: r.readOnly.unconfirmedReads.off <= p && p < r.readOnly.unconfirmedReads.off + len(r.readOnly.unconfirmedReads)
+//@     ==> readreq_wf(elem(r.readOnly.unconfirmedReads, p).req))
+
+//@ -- what this library's own senders and the RawNode API guarantee about messages stepped on a leader (E-msg-wf, E-app-conf, E-readack)
+//@ pred prop_wf(r *raft, m *pb.Message) := len(m.Entries) > 0 && (forall p int :: m.Entries.off <= p && p < m.Entries.off + len(m.Entries) ==> elem(m.Entries, p) != nil
+//@        && (isConfEntry(elem(m.Entries, p)) ==> dataOK(elem(m.Entries, p).Data.arr, elem(m.Entries, p).Data.off, len(elem(m.Entries, p).Data))))
+//@     && r.uncommittedSize < 4611686018427387904 && log_last(r.raftLog) + len(m.Entries) < 4611686018427387904
+//@     && m.Entries.arr != r.raftLog.unstable.entries.arr
+//@ pred appresp_wf(r *raft, m *pb.Message) := (m.GetReject() ==> m.GetFrom() != r.id && m.GetRejectHint() < 4611686018427387904) && (!m.GetReject() ==> m.GetIndex() <= log_last(r.raftLog))
+//@ pred hbresp_wf(r *raft, m *pb.Message) := m.GetFrom() != r.id && (len(m.Context) != 0 ==> len(m.Context) >= 8
+//@        && le64(m.Context) <= r.readOnly.confirmedReads + len(r.readOnly.unconfirmedReads)) && (len(r.trk.Voters[0]) > 0 || len(r.trk.Voters[1]) > 0)
+//@ pred leader_msg_in_wf(r *raft, m *pb.Message) := (m.GetType() == pb.MsgProp ==> prop_wf(r, m)) && (m.GetType() == pb.MsgReadIndex ==> readreq_wf(m))
+//@     && (m.GetType() == pb.MsgAppResp ==> appresp_wf(r, m)) && (m.GetType() == pb.MsgHeartbeatResp ==> hbresp_wf(r, m))
+
+//@ func raft.stepLeader [C06 C10 C11 C16 C17 C20 C05 C07 C14]
+//@   requires wf_raft(r) && typestate(r) && m != nil
+//@   requires #role r.state == StateLeader
+//@   requires #leader-inv [C14] wf_leader(r) && term_ge_log(r) && r.Term >= 1 && reads_wf(r) && r.trk.MaxInflight >= 1
+//@   requires #a-arith log_last(r.raftLog) + 1 < 4611686018427387904
+//@        && r.readOnly.confirmedReads + len(r.readOnly.unconfirmedReads) + len(r.pendingReadIndexMessages) + 1 < 4611686018427387904
+//@   requires #msg-wf [C14] leader_msg_in_wf(r, m)
+//@   reveal wf_trk, trk_distinct, wf_readOnly
+//@   case m.GetType() == pb.MsgProp
+//@   case m.GetType() == pb.MsgAppResp && m.GetReject()
+//@   case m.GetType() == pb.MsgAppResp && !m.GetReject()
+//@   case m.GetType() == pb.MsgHeartbeatResp
+//@   case m.GetType() == pb.MsgCheckQuorum || m.GetType() == pb.MsgBeat || m.GetType() == pb.MsgReadIndex || m.GetType() == pb.MsgForgetLeader
+//@   case m.GetType() == pb.MsgSnapStatus || m.GetType() == pb.MsgUnreachable || m.GetType() == pb.MsgTransferLeader
+//@   case m.GetType() != pb.MsgProp && m.GetType() != pb.MsgAppResp && m.GetType() != pb.MsgHeartbeatResp && m.GetType() != pb.MsgCheckQuorum && m.GetType() != pb.MsgBeat
+//@        && m.GetType() != pb.MsgReadIndex && m.GetType() != pb.MsgForgetLeader && m.GetType() != pb.MsgSnapStatus && m.GetType() != pb.MsgUnreachable && m.GetType() != pb.MsgTransferLeader
+//@   loop 1 invariant #range 0 <= iter && iter <= len(m.Entries) && m.Entries == old(m.Entries)
+//@   loop 1 invariant #k1a r.Term == old(r.Term) && r.Vote == old(r.Vote) && r.state == old(r.state) && r.lead == old(r.lead) && r.id == old(r.id)
+//@   loop 1 invariant #k1b r.step == old(r.step) && r.tick == old(r.tick)
+//@   loop 1 invariant #k1c r.electionElapsed == old(r.electionElapsed) && r.heartbeatElapsed == old(r.heartbeatElapsed)
+//@   loop 1 invariant #k1d (r.msgs.arr == old(r.msgs.arr) || fresh(r.msgs.arr)) && (r.msgsAfterAppend.arr == old(r.msgsAfterAppend.arr) || fresh(r.msgsAfterAppend.arr))
+//@   loop 1 invariant #k2 r.msgs == old(r.msgs) && r.msgsAfterAppend == old(r.msgsAfterAppend)
+//@   loop 1 invariant #k3 r.uncommittedSize == old(r.uncommittedSize) && r.leadTransferee == old(r.leadTransferee)
+//@   loop 1 invariant #k4 r.trk.Progress == old(r.trk.Progress)
+//@   loop 1 invariant #k5 m.Entries.arr != r.raftLog.unstable.entries.arr
+//@   loop 1 invariant #log-kept log_cursors_kept(r.raftLog) && log_last(r.raftLog) == old(log_last(r.raftLog))
+//@   loop 1 invariant #wf wf_raft(r)
+//@   loop 1 invariant #inlog wf_leader(r)
+//@   loop 1 invariant #termlog term_ge_log(r)
+//@   loop 1 invariant #reads reads_wf(r)
+//@   loop 1 invariant #entries-nonnil forall p int :: m.Entries.off <= p && p < m.Entries.off + len(m.Entries) ==> elem(m.Entries, p) != nil
+//@        && (p >= m.Entries.off + iter && isConfEntry(elem(m.Entries, p)) ==> dataOK(elem(m.Entries, p).Data.arr, elem(m.Entries, p).Data.off, len(elem(m.Entries, p).Data)))
+//@   loop 1 invariant #untouched-tail forall p int :: {elem(m.Entries, p)} m.Entries.off + iter <= p && p < m.Entries.off + len(m.Entries) ==> elem(m.Entries, p) == oldelem(m.Entries, p)
+//@   loop 1 invariant #types-kept allocframe("F$raftpb.Entry", "C$raftpb.EntryType")
+//@   loop 1 invariant #pending-conf [C10] r.pendingConfIndex == old(r.pendingConfIndex)
+//@        || (exists j int :: 0 <= j && j < iter && r.pendingConfIndex == log_last(r.raftLog) + 1 + j && old(isConfEntry(elem(m.Entries, m.Entries.off + j))))
+//@   loop 1 invariant #conf-gate [C10] r.pendingConfIndex != old(r.pendingConfIndex) ==> r.disableConfChangeValidation || old(r.pendingConfIndex) <= r.raftLog.applied
+//@   visit 1 invariant #state wf_raft(r) && typestate(r) && hs_monotone(r) && r.Term == old(r.Term) && r.msgs == old(r.msgs) && r.msgsAfterAppend == old(r.msgsAfterAppend)
+//@        && r.raftLog.committed == old(r.raftLog.committed) && r.trk.Progress == old(r.trk.Progress) && r.id == old(r.id)
+//@        && (old(majActive(&r.trk, r.trk.Voters[0]) && majActive(&r.trk, r.trk.Voters[1])) ? r.state == StateLeader && wf_leader(r) : r.state == StateFollower && r.lead == 0)
+//@   visit 1 invariant #inactive [C17] forall id uint64 :: seen(id) && id != r.id ==> !r.trk.Progress[id].RecentActive
+//@   loop 2 invariant #drain-wf wf_raft(r) && r.state == StateLeader
+//@   loop 2 invariant #drain-inlog wf_leader(r)
+//@   loop 2 invariant #drain-kept raft_kept_but_msgs(r) && r.msgsAfterAppend == old(r.msgsAfterAppend) && len(r.msgs) >= old(len(r.msgs))
+//@        && r.trk.Progress == old(r.trk.Progress) && log_last(r.raftLog) == old(log_last(r.raftLog)) && r.raftLog.committed >= old(r.raftLog.committed) && r.leadTransferee == old(r.leadTransferee)
+//@   loop 2 invariant #drain-others forall id uint64 :: has(r.trk.Progress, id) && id != m.GetFrom() ==> r.trk.Progress[id].Match == old(r.trk.Progress[id].Match)
+//@   loop 2 invariant #drain-from r.trk.Progress[m.GetFrom()].Match == max(old(r.trk.Progress[m.GetFrom()].Match), m.GetIndex()) && has(r.trk.Progress, m.GetFrom()) && m.GetFrom() != r.id
+//@   loop 2 invariant #drain-msg m.GetFrom() == old(m.GetFrom()) && m.GetIndex() == old(m.GetIndex()) && m.GetType() == old(m.GetType()) && m.GetReject() == old(m.GetReject())
+//@   loop 2 invariant #drain-reads reads_wf(r) && r.pendingConfIndex == old(r.pendingConfIndex)
+//@   loop 3 invariant #ans-range 0 <= iter && iter <= len(rss)
+//@   loop 3 invariant #ans-wf wf_raft(r) && r.state == StateLeader
+//@   loop 3 invariant #ans-inlog wf_leader(r)
+//@   loop 3 invariant #ans-kept raft_kept_but_msgs(r) && r.msgsAfterAppend == old(r.msgsAfterAppend)
+//@        && len(r.msgs) >= old(len(r.msgs)) && matches_kept(r) && log_last(r.raftLog) == old(log_last(r.raftLog)) && r.raftLog.committed == old(r.raftLog.committed)
+//@   loop 3 invariant #ans-reqs forall p int :: rss.off <= p && p < rss.off + len(rss) ==> elem(rss, p) != nil && readreq_wf(elem(rss, p).req)
+//@   loop 3 invariant #ans-reads reads_wf(r)
+//@   ensures #check-quorum [C17] old(m.GetType()) == pb.MsgCheckQuorum ==> r.Term == old(r.Term)
+//@        && (old(majActive(&r.trk, r.trk.Voters[0]) && majActive(&r.trk, r.trk.Voters[1])) ? r.state == StateLeader : r.state == StateFollower && r.lead == 0)
+//@        && (forall id uint64 :: has(r.trk.Progress, id) && id != r.id ==> !r.trk.Progress[id].RecentActive)
+//@   ensures #deferred-untouched [C05] old(m.GetType()) != pb.MsgProp ==> r.msgsAfterAppend == old(r.msgsAfterAppend)
+//@   ensures #snap-status-keeps-match [C06] old(m.GetType() == pb.MsgSnapStatus || m.GetType() == pb.MsgUnreachable || m.GetType() == pb.MsgTransferLeader || m.GetType() == pb.MsgHeartbeatResp
+//@        || m.GetType() == pb.MsgBeat || m.GetType() == pb.MsgReadIndex || m.GetType() == pb.MsgForgetLeader || (m.GetType() == pb.MsgAppResp && m.GetReject())) ==> matches_kept(r)
+//@   ensures #match-only-up [C06] old(m.GetType() == pb.MsgAppResp && !m.GetReject() && has(r.trk.Progress, m.GetFrom())) ==> r.trk.Progress == old(r.trk.Progress)
+//@        && r.trk.Progress[old(m.GetFrom())].Match == max(old(r.trk.Progress[m.GetFrom()].Match), old(m.GetIndex()))
+//@        && (forall id uint64 :: has(r.trk.Progress, id) && id != old(m.GetFrom()) ==> r.trk.Progress[id].Match == old(r.trk.Progress[id].Match))
+//@   -- the commit index moves only through maybeCommit (whose contract makes it quorum-backed and own-term), and only on a successful append acknowledgement
+//@   ensures #commit-only-on-ack [C06] r.raftLog.committed != old(r.raftLog.committed) ==> r.raftLog.committed > old(r.raftLog.committed)
+//@        && old(m.GetType() == pb.MsgAppResp && !m.GetReject()) && r.raftLog.committed <= log_last(r.raftLog)
+//@   ensures #term-kept [C07] r.Term == old(r.Term) && r.Vote == old(r.Vote) && (r.state == StateLeader || old(m.GetType()) == pb.MsgCheckQuorum)
+//@   ensures #prop-dropped [C20] old(m.GetType() == pb.MsgProp && (!has(r.trk.Progress, r.id) || r.leadTransferee != 0)) ==> result == ErrProposalDropped && node_unchanged(r)
+//@        && r.pendingConfIndex == old(r.pendingConfIndex) && r.uncommittedSize == old(r.uncommittedSize)
+//@   ensures #prop-result [C20 C16] old(m.GetType()) == pb.MsgProp ==> (result == nil ? log_last(r.raftLog) == old(log_last(r.raftLog)) + len(m.Entries)
+//@        : result == ErrProposalDropped && log_last(r.raftLog) == old(log_last(r.raftLog)) && r.msgs == old(r.msgs) && r.msgsAfterAppend == old(r.msgsAfterAppend) && r.uncommittedSize == old(r.uncommittedSize))
+//@   ensures #conf-gate [C10] old(m.GetType()) == pb.MsgProp && r.pendingConfIndex != old(r.pendingConfIndex) ==> (r.disableConfChangeValidation || old(r.pendingConfIndex) <= r.raftLog.applied)
+//@   ensures #conf-index [C10] old(m.GetType()) == pb.MsgProp && r.pendingConfIndex != old(r.pendingConfIndex) ==>
+//@        (exists j int :: 0 <= j && j < old(len(m.Entries)) && r.pendingConfIndex == old(log_last(r.raftLog)) + 1 + j && old(isConfEntry(elem(m.Entries, m.Entries.off + j))))
+//@   ensures #conf-only-on-prop [C10] old(m.GetType()) != pb.MsgProp && r.state == StateLeader ==> r.pendingConfIndex == old(r.pendingConfIndex)
+//@   ensures #read-not-before-own-term-commit [C11] old(m.GetType() == pb.MsgReadIndex && !(len(r.trk.Voters[0]) == 1 && len(r.trk.Voters[1]) == 0) && !r.committedEntryInCurrentTerm()) ==>
+//@        len(r.pendingReadIndexMessages) == old(len(r.pendingReadIndexMessages)) + 1 && r.pendingReadIndexMessages[old(len(r.pendingReadIndexMessages))] == m
+//@        && r.msgs == old(r.msgs) && r.readStates == old(r.readStates) && r.readOnly == old(r.readOnly) && len(r.readOnly.unconfirmedReads) == old(len(r.readOnly.unconfirmedReads))
+//@   ensures #transfer [C17] old(m.GetType() == pb.MsgTransferLeader) && r.leadTransferee != old(r.leadTransferee) && r.leadTransferee != 0 ==> r.leadTransferee == old(m.GetFrom()) && r.electionElapsed == 0
+//@        && old(has(r.trk.Progress, m.GetFrom())) && !r.trk.Progress[r.leadTransferee].IsLearner
+//@   ensures #wf wf_raft(r)
+//@   ensures #hs [C07] hs_monotone(r)
+//@   ensures #typestate typestate(r)
+//@   ensures #leader-inv-kept r.state == StateLeader ==> wf_leader(r)
+//@   ensures #reads-wf-kept r.state == StateLeader ==> reads_wf(r)
